@@ -227,7 +227,10 @@ type simWorld struct {
 	Crashes int
 	OnFire  func(c *SimClient, s *Sent)
 	Unanswered []*Sent
-	resolver func(c *SimClient, op *Op) *ClientComMessage
+	iso          *isoProbe
+	IsoCloneDisk bool
+	OnIsoFire    func(p *isoProbe)
+	OnIsoDone    func(p *isoProbe, post *Snapshot)
 }
 
 func newSimWorld(sched simrt.Schedule, disk *simdb.Disk) *simWorld {
@@ -367,11 +370,53 @@ func (c *SimClient) opReady(now time.Duration) (ready bool, deadline time.Durati
 	return true, 0, false
 }
 
-func (w *simWorld) Enabled() []int {
+// isoProbe is an isolated operation: fired only when the world is idle and nothing else is in flight,
+// so that the white-box snapshot taken at fire time is the state the request is processed against.
+type isoProbe struct {
+	C       *SimClient
+	Op      *Op
+	Sent    *Sent
+	Pre     *Snapshot
+	PreDisk *simdb.Disk
+	FireEv  int
+	Exp     any
+}
+
+func (w *simWorld) inFlight() bool {
+	for _, c := range w.Clients {
+		if ls := c.lastSent; ls != nil && ls.Id != "" && !ls.Answered && !ls.TimedOut && ls.Inc == w.Inc && ls.Conn == c.Conn && c.Connected {
+			return true
+		}
+	}
+	return false
+}
+
+func (w *simWorld) Enabled(idle bool) []int {
 	now := w.rt.Now()
+	if w.iso != nil {
+		if !idle {
+			return nil
+		}
+		p := w.iso
+		w.iso = nil
+		if w.OnIsoDone != nil {
+			simPush.drain()
+			w.OnIsoDone(p, w.snapshot())
+		}
+	}
 	var out []int
 	for _, c := range w.Clients {
 		if ok, _, _ := c.opReady(now); ok {
+			if c.Ops[c.next].Isolated {
+				if !idle || w.inFlight() {
+					continue
+				}
+				if len(out) == 0 {
+					// an isolated operation fires alone
+					return []int{c.Idx}
+				}
+				continue
+			}
 			out = append(out, c.Idx)
 		}
 	}
@@ -397,6 +442,23 @@ func (w *simWorld) Fire(id int) {
 	op := c.Ops[c.next]
 	c.next++
 	c.readyAt = w.rt.Now()
+	if op.Isolated {
+		simPush.drain()
+		p := &isoProbe{C: c, Op: op, Pre: w.snapshot(), FireEv: w.ev}
+		if w.IsoCloneDisk {
+			p.PreDisk = w.Disk.Clone()
+		}
+		nSent := len(c.Sents)
+		w.exec(c, op)
+		if len(c.Sents) > nSent {
+			p.Sent = c.Sents[nSent]
+		}
+		w.iso = p
+		if w.OnIsoFire != nil {
+			w.OnIsoFire(p)
+		}
+		return
+	}
 	w.exec(c, op)
 }
 
@@ -469,6 +531,9 @@ const settleTime = 12 * time.Second
 func (w *simWorld) settle() simrt.RunResult {
 	r := w.rt.Run(settleTime, nil)
 	simPush.drain()
+	if w.iso != nil && r == simrt.RunQuiescent {
+		w.Enabled(true)
+	}
 	return r
 }
 
